@@ -1970,8 +1970,9 @@ sexp sexp_inexact_to_exact (sexp ctx, sexp self, sexp_sint_t n, sexp z) {
       res = sexp_xtype_exception(ctx, self, "exact: not an integer", z);
 #endif
 #if SEXP_USE_BIGNUMS
-    } else if ((sexp_flonum_value(z) > SEXP_MAX_FIXNUM)
+    } else if ((sexp_flonum_value(z) >= -(double)SEXP_MIN_FIXNUM)
                || sexp_flonum_value(z) < SEXP_MIN_FIXNUM) {
+      /* (double)SEXP_MAX_FIXNUM rounds up to 2^62, which is not a fixnum */
       res = sexp_double_to_bignum(ctx, sexp_flonum_value(z));
 #endif
     } else {
